@@ -68,3 +68,6 @@ where
         }
     }
 }
+
+#[cfg(kani)]
+include!(concat!(env!("TOML_VERIF_KANI"), "/toml_edit/de_spanned.rs"));
